@@ -4,3 +4,11 @@ A predicate takes (mech, witness) of a violation and says whether it is the list
 finding.  Predicates look at the *mechanism* (which call pattern, which site), never
 at case hashes or random values, so a different violation of the same property is
 still reported."""
+
+
+def c10_shared_native_state(mech, witness):
+    """All engine objects share the library's single native simulation: the diverging engine's last
+    set-up was followed by a native-state-changing call made through ANOTHER engine object.
+    Single-engine histories are never excused."""
+    return bool(mech.get("two_engines")) and mech.get("other_engine_touched_native_state_since_last_setup") is True \
+        and not mech.get("single_engine")
